@@ -40,7 +40,7 @@ func (p *propC03) ProbeNames() []string {
 func (p *propC03) Prepare(seed uint64, tier string) int {
 	p.seed, p.tier = seed, tier
 	p.per = 2000
-	if tier == "thorough" {
+	if isThorough(tier) {
 		p.per = 40000
 	}
 	p.count = 256 * p.per
